@@ -18,6 +18,11 @@ ifeq ($(V),asan)
 CXX      := clang++
 CXXFLAGS := -std=c++14 -O1 -g -DNDEBUG -w -fsanitize=address,undefined -fno-sanitize=float-cast-overflow -fno-sanitize-recover=undefined -fno-omit-frame-pointer
 LDSAN    := -fsanitize=address,undefined
+else ifeq ($(V),cov)
+# line coverage of /repo/src reached by the checks (tools/coverage.sh); not used by any verdict
+CXX      := g++
+CXXFLAGS := -std=c++14 -fext-numeric-literals -O0 -g -DNDEBUG -w --coverage
+LDSAN    := --coverage
 else ifeq ($(V),vg)
 # for valgrind: no -march=native (valgrind 3.19 does not know all AVX-512 instructions)
 CXX      := g++
@@ -30,7 +35,7 @@ LDSAN    :=
 endif
 
 WRAPS := -Wl,--wrap=_ZNSt13random_device9_M_getvalEv -Wl,--wrap=_ZNSt6chrono3_V212system_clock3nowEv \
-         -Wl,--wrap=fftwf_plan_dft_r2c_1d -Wl,--wrap=fftwf_plan_dft_c2r_1d \
+         -Wl,--wrap=fftwf_plan_dft_r2c_1d -Wl,--wrap=fftwf_plan_dft_c2r_1d -Wl,--wrap=fftwf_execute -Wl,--wrap=fftwf_destroy_plan \
          -Wl,--wrap=fftwf_import_wisdom_from_filename -Wl,--wrap=fftwf_export_wisdom_to_filename
 LIBS  := -L/usr/lib/x86_64-linux-gnu/hdf5/serial -Wl,-rpath,/usr/lib/x86_64-linux-gnu/hdf5/serial \
          -lboost_filesystem -lboost_program_options -lboost_system -lfftw3f -lfftw3 -lhdf5_cpp -lhdf5 -ldl -lm
